@@ -40,6 +40,10 @@ history = {
  'C01i':'after','C02i':'frozen-other','C03i':'frozen-other','C04i':'after','C05i':'frozen','C06i':'after','C07i':'frozen','C08i':'frozen',
  'C09i':'after','C10i':'frozen','C11i':'frozen-other','C13i':'frozen-other','C14i':'frozen','C15i':'frozen','C16i':'frozen','C17i':'frozen',
  'C18i':'frozen-other','C19i':'after','C20i':'after',
+ # round j: rules frozen at tag rules-frozen-for-round-j-seeds; first run in refs/round_j_first_run.txt
+ 'C01j':'frozen','C02j':'frozen','C03j':'after','C04j':'frozen','C05j':'frozen','C06j':'frozen','C07j':'frozen','C08j':'frozen',
+ 'C09j':'frozen-other','C10j':'after','C11j':'frozen','C13j':'after','C14j':'after','C15j':'frozen','C16j':'frozen','C17j':'after',
+ 'C18j':'frozen','C19j':'frozen-other','C20j':'after',
 }
 seeds = sys.argv[1:] or sorted(d for d in os.listdir('seeded') if os.path.isdir('seeded/'+d))
 out = subprocess.run(['tools/run_seeds.sh'] + seeds, capture_output=True, text=True).stdout
